@@ -742,6 +742,7 @@ def check_resamplers(ctx, cases, obs, texts):
     # assemble the pixel case files: data tables as separate definitions
     tabs = [l for l in lines if isinstance(l, tuple)]
     pix = [l for l in lines if not isinstance(l, tuple)]
+    ctx.traces += len(pix)
     if pix:
         pre = HDR + "".join(t[2] for t in tabs)
         pre += "Definition dtab (i : nat) : list float := match i with %s | _ => [] end.\n" % " | ".join("%d%%nat => dtab_%d" % (t[1], t[1]) for t in tabs)
